@@ -31,11 +31,14 @@ EXPLANATION = ("Rules over the MIR of server::http_request_handle (coroutine), s
                "borrows and an explicit list of value-preserving callees, stopping at parameters, call results and re-assigned locals) and backward slices with callee allow-lists; "
                "tables are read from the discriminant switches on HttpRouterEdges; dominance uses the pruned CFG. The rules are written over roles, not spellings: the success payload of a "
                "Result/Option is the same path whether it was split by `?`, match, if-let or let-else; a value bound through `let x = match ..` or an or-pattern is followed into every arm; "
-               "`while let .. push` and `extend(iterator)` are both accepted for draining the segment iterator; the version predicate may be a closure handed to find/filter, a filter_map closure or an explicit "
+               "`while let .. push`, `extend(iterator)` and `once(segment).chain(iterator).collect()` are all accepted for 'the current segment followed by every remaining one' (seed = the walk's current segment, "
+               "rest = the walk's own iterator, nothing else written to the list, binding only once that iterator is consumed); R1-R4 read the normalised view, in which Option/Result combinators with closures "
+               "(`get(k).and_then(|h| select(h, v))`, `match{..}.ok_or_else(..)?`) are the same switches as the corresponding match; the walk loop may be `while let` or `loop { let-else break }` "
+               "(only the Some / None edges of the driving next() are used); the version predicate may be a closure handed to find/filter, a filter_map closure or an explicit "
                "loop with early return; the overlap test may be a loop or a find/position/any search; `!= All` may be written as ==, match or matches!; the sticky flag as `= true` under a test, `|=` or `a = a || b`; "
                "private helpers that are not on tables/known_functions.txt are analysed inlined.")
 TRUSTED = ["rustc nightly MIR construction", "mirfacts extractor", "rules/engine.py (dominators, slices) and rules/lib_c01.py (access paths)",
-           "std BTreeMap/Vec/Iterator semantics (incl. Extend for Vec: appends every remaining item in order; find/position/any: apply the predicate to each item until it first holds)", "http crate accessors (Request::method/uri, Uri::path, Method::as_str)", "C05.E1/E2 (exact matches / overlaps_with tables)"]
+           "std BTreeMap/Vec/Iterator semantics (incl. Extend for Vec: appends every remaining item in order; once(a).chain(it).collect::<Vec<_>>(): a, then every remaining item of it, in order; find/position/any: apply the predicate to each item until it first holds)", "engine normalised view (combinator desugaring, helper inlining, jump threading)", "http crate accessors (Request::method/uri, Uri::path, Method::as_str)", "C05.E1/E2 (exact matches / overlaps_with tables)"]
 
 VP = VALUE_PRESERVING
 TRYQ = [r"ops::Try::branch$"]
@@ -43,7 +46,7 @@ SEG_OK = VP + [r"string::ToString::to_string$"]          # segment -> String cop
 
 
 def _lr(ctx, R):
-    return ctx.need_fn(ctx.ds, R, r"^router::HttpRouter::<Context>::lookup_route$")
+    return ctx.need_fn(ctx.dsn, R, r"^router::HttpRouter::<Context>::lookup_route$")
 
 
 def _ins(ctx, R):
@@ -187,8 +190,13 @@ def r2_one_endpoint(ctx):
     # answer only on the Some edge of that selection
     sw = []
     for sbb, info, tg in enum_switches(lr, r"^std::option::Option$"):
-        q = access_path(lr, info["place"], VP)        # the selection itself or a let-bound copy of it
-        if q.call() and q.call()[2] is ft and not q.path:
+        # the selection itself, a let-bound copy of it, or the join of `get(..).and_then(|h| <the selection>)` / an equivalent match: the value switched
+        # on is the selection's result on some definitions and a literal `None` on all the others (the Some payload read on the Some edge is then the
+        # selection's, which the field checks above established)
+        qs = sources(lr, info["place"], VP)
+        if any(q.call() and q.call()[2] is ft and not q.path for q in qs) and \
+                all((q.call() and q.call()[2] is ft and not q.path) or (q.kind() == "agg" and q.root[2].get("adt") == "std::option::Option" and q.root[2].get("variant") == "None" and not q.path)
+                    for q in qs):
             sw.append((sbb, info))
     oks = False
     if sw:
@@ -293,15 +301,43 @@ def _some_edge(lr, call_t):
     return None
 
 
+def _once_chain_collect(lr, pr):
+    """pr is `std::iter::once(<seed>).chain(<rest>).collect()` into a Vec (std: Chain yields every item of its first iterator, then every item of
+    its second, in order; collect::<Vec<_>> stores them in that order and runs until both are exhausted): (collect bb, seed operand, rest operand) or None."""
+    if not (pr.is_call(r"iter::Iterator::collect$") and not pr.path):
+        return None
+    cbb, ct = pr.call()[1], pr.call()[2]
+    if not lr.local_ty(ct["dest"]["l"]).startswith("std::vec::Vec<") or len(ct["args"]) != 1:
+        return None
+    pc = access_path(lr, ct["args"][0], [])
+    if not (pc.is_call(r"iter::Iterator::chain$") and not pc.path and len(pc.call()[2]["args"]) == 2):
+        return None
+    ch = pc.call()[2]
+    po = access_path(lr, ch["args"][0], [])
+    if not (po.is_call(r"^(std|core)::iter::once$") and not po.path and len(po.call()[2]["args"]) == 1):
+        return None
+    return cbb, po.call()[2]["args"][0], ch["args"][1]
+
+
 def _vec_contributions(lr, rest_op):
     """What goes into the Vec handed to VariableValue::Components: the `next` sites whose payload is
-    the seed or is pushed, whole-iterator appends (`extend`), plus anything else that writes to the vector (reported as foreign)."""
+    the seed or is pushed, whole-iterator appends (`extend`, or the `chain(..)` of a `once(seed).chain(rest).collect()`), plus anything else that
+    writes to the vector (reported as foreign)."""
     pr = access_path(lr, rest_op, VP)
-    seed = lr.slice(rest_op, stop_at_calls=r"iter::Iterator::next$")
-    seed_bad = callee_allow(seed, PLUMBING + [r"boxed::box_assume_init_into_vec_unsafe$", r"boxed::Box::<T>::new_uninit$", r"slice::<impl \[T\]>::into_vec$",
-                                              r"vec::Vec::<T>::new$", r"vec::Vec::<T>::with_capacity$", r"vec::from_elem$", r"iter::Iterator::next$",
-                                              r"alloc::exchange_malloc$", r"boxed::Box::<T>::write$", r"mem::MaybeUninit"])
-    seeds = [bb for c, bb, t in seed.calls(r"iter::Iterator::next$")]
+    occ = _once_chain_collect(lr, pr)
+    chains = []
+    if occ is not None:
+        cbb, seed_op, chained_op = occ
+        ps = access_path(lr, seed_op, VP)
+        seeds = [ps.call()[1]] if ps.is_call(r"iter::Iterator::next$") and ps.path == ["as Some", "0"] else []
+        seed_bad = [] if seeds else [("once(%r)" % ps, None)]
+        chains.append((cbb, chained_op))
+    else:
+        seed = lr.slice(rest_op, stop_at_calls=r"iter::Iterator::next$")
+        seed_bad = callee_allow(seed, PLUMBING + [r"boxed::box_assume_init_into_vec_unsafe$", r"boxed::Box::<T>::new_uninit$", r"slice::<impl \[T\]>::into_vec$",
+                                                  r"vec::Vec::<T>::new$", r"vec::Vec::<T>::with_capacity$", r"vec::from_elem$", r"iter::Iterator::next$",
+                                                  r"alloc::exchange_malloc$", r"boxed::Box::<T>::write$", r"mem::MaybeUninit"])
+        seeds = [bb for c, bb, t in seed.calls(r"iter::Iterator::next$")]
     root = pr.root_local()
     pushes, extends, foreign = [], [], [b[0] for b in seed_bad]
     for bb, t in lr.live_calls():
@@ -319,7 +355,7 @@ def _vec_contributions(lr, rest_op):
             pass
         else:
             foreign.append(c)
-    return pr, seeds, pushes, extends, foreign
+    return pr, seeds, pushes, extends, foreign, chains
 
 
 def r3_walk_integrity(ctx):
@@ -404,11 +440,12 @@ def r3_walk_integrity(ctx):
     vr = var_arm("VariableRest", "Components")
     if vr:
         bb, t, pv = vr
-        pr, seeds, pushes, extends, foreign = _vec_contributions(lr, pv.root[2]["ops"][0])
+        pr, seeds, pushes, extends, foreign, chains = _vec_contributions(lr, pv.root[2]["ops"][0])
         ctx.check(R, "VariableRest:seeded-with-current-segment", seeds == [obb] and not foreign,
                   "the wildcard's vector is built from next() site(s) %s (want exactly the walk's current segment); foreign writers/callees: %s" % (len(seeds), foreign), (lr, bb))
         # the rest of the list: (a) a loop `while let Some(s) = it.next() { rest.push(s) }` that runs until the walk's iterator is exhausted, or
-        # (b) `rest.extend(it.by_ref())`, which appends every remaining item in order (std Extend for Vec) - `it` being the walk's own iterator
+        # (b) `rest.extend(it.by_ref())`, which appends every remaining item in order (std Extend for Vec) - `it` being the walk's own iterator, or
+        # (c) the whole list built as `once(segment).chain(it.by_ref() | it).collect()`: the seed, then every remaining item of `it` in order
         okp = len(pushes) >= 1
         dd = []
         exhaust = False
@@ -428,8 +465,14 @@ def r3_walk_integrity(ctx):
             same_it = _iterator_local(lr, et["args"][1]) == it_local and it_local is not None
             oke = same_it and lr.dominates(ebb, bb) and obb not in lr.reachable(ebb, avoid=[bb])
             dd.append("extend(<the walk's iterator>: %s)" % same_it)
-        ctx.check(R, "VariableRest:every-remaining-segment-pushed-in-order", (okp and exhaust and not extends) or oke,
-                  "appended after the seed: %s; from the same iterator as the walk; the binding happens only after that iterator was exhausted: %s" % (dd, exhaust or oke), (lr, bb))
+        okch = False
+        if len(chains) == 1 and not pushes and not extends:
+            cbb, cop = chains[0]
+            same_it = _iterator_local(lr, cop) == it_local and it_local is not None
+            okch = same_it and lr.dominates(cbb, bb) and obb not in lr.reachable(cbb, avoid=[bb])
+            dd.append("once(seed).chain(<the walk's iterator>: %s).collect()" % same_it)
+        ctx.check(R, "VariableRest:every-remaining-segment-pushed-in-order", (okp and exhaust and not extends and not chains) or (oke and not chains) or okch,
+                  "appended after the seed: %s; from the same iterator as the walk; the binding happens only after that iterator was exhausted: %s" % (dd, exhaust or oke or okch), (lr, bb))
     # --- the value `node` advances to: every definition of the cursor, with every value it may receive (a `let next = match ..` result,
     # an Option unwrapped by `ok_or_else(..)?`, by a match or by let-else are all followed to the arm values)
     thru = VP + TRYQ + [r"Option::<T>::ok_or_else$", r"Option::<T>::ok_or$"]
@@ -466,8 +509,10 @@ def r3_walk_integrity(ctx):
     for kind in ("VariableSingle", "VariableRest"):
         inarm = arm(kind)
         ps = arm_children.get(kind, [])
-        # the value is produced inside its own arm: every multi-definition hop on the way lies in the arm (or the projection itself is only valid there)
-        okc = len(ps) == 1 and all(inarm(hb) for _l, hb in ps[0].hops)
+        # the value is this kind's child and is never routed through another kind's arm: no multi-definition hop on the way lies in a different arm
+        # (joins behind the match - `match {..}.ok_or_else(..)?` desugared - are common to all arms; the projection `as <kind>` itself is only valid in its arm)
+        others = [arm(k2) for k2 in want_kinds if k2 != kind]
+        okc = len(ps) == 1 and not any(o(hb) for _l, hb in ps[0].hops for o in others)
         ctx.check(R, "%s:descends-to-the-edge's-child" % kind, okc, "in this arm the cursor advances to %s" % (ps or "nothing"), lr)
     ctx.check(R, "node-cursor-assignments", cats["root"] == 1 and cats["loop"] >= 1 and cats["trailing"] == 1 and not cats["other"],
               "`node` is assigned: self.root x%d, the matched arm's child x%d, the trailing wildcard's child x%d, anything else: %s"
@@ -487,8 +532,8 @@ def r3_walk_integrity(ctx):
         pk = access_path(lr, t["args"][1], VP)
         pv = access_path(lr, t["args"][2], VP)
         if pv.kind() == "agg" and pv.root[2].get("variant") == "Components":
-            pr, seeds, pushes, extends, foreign = _vec_contributions(lr, pv.root[2]["ops"][0])
-            okt = pk.root_local() == node and pk.path == ["edges", "as Some", "0", "as VariableRest", "0"] and not seeds and not pushes and not extends and not foreign
+            pr, seeds, pushes, extends, foreign, chains = _vec_contributions(lr, pv.root[2]["ops"][0])
+            okt = pk.root_local() == node and pk.path == ["edges", "as Some", "0", "as VariableRest", "0"] and not seeds and not pushes and not extends and not foreign and not chains
             d = "variables[%r] = Components(%r) with %d seeded / %d pushed elements" % (pk, pr, len(seeds), len(pushes))
     same_target = ttargets.get("Literals") == ttargets.get("VariableSingle") and ttargets.get("Literals") != tt
     ctx.check(R, "trailing-wildcard-binds-empty-list", okt and not others_bind and same_target,
@@ -905,6 +950,8 @@ RULES = [("C01.R1", r1_request_wiring), ("C01.R2", r2_one_endpoint), ("C01.R3", 
 
 RT = "dropshot/src/router.rs"
 SV = "dropshot/src/server.rs"
+REST_LOOP = "                    let mut rest = vec![segment];\n                    while let Some(segment) = all_segments.next() {\n                        rest.push(segment);\n                    }\n"
+SELECT_CALL = "find_handler_matching_version(\n            node.methods.get(&methodname).map(|v| v.as_slice()).unwrap_or(&[]),\n            version,\n        ) "
 
 SELFTEST = [
     # ---------------------------------------------------------------- mutants
@@ -1002,6 +1049,33 @@ SELFTEST = [
     {"name": 'unversioned-check-tests-wrong-policy', "kind": "mutant", "expect": ['C01.R7'],
      "edits": [(SV, '        if let VersionPolicy::Unversioned = version_policy {\n            if router.has_versioned_routes() {\n                return Err(BuildError::UnversionedServerHasVersionedRoutes);\n            }\n        }\n', '        let has_versioned = router.has_versioned_routes();\n        if has_versioned {\n            if let VersionPolicy::Dynamic(_) = version_policy {\n                return Err(BuildError::UnversionedServerHasVersionedRoutes);\n            }\n        }\n')],
      "why": 'the accessor is consulted first, but the refusal is tied to the Dynamic policy instead of Unversioned'},
+    # ---- the idioms of benign-C01-R8 (once().chain().collect() for the wildcard list, get(..).and_then(selection)) with a defect inside
+    {"name": "wildcard-chain-reversed", "kind": "mutant", "expect": ["C01.R3"],
+     "edits": [(RT, REST_LOOP, "                    let rest: Vec<String> = std::iter::once(segment)\n                        .chain(all_segments.by_ref().rev())\n                        .collect();\n")],
+     "why": "the wildcard list is collected from once(segment).chain(..), but the remaining segments come reversed"},
+    {"name": "wildcard-chain-seed-last", "kind": "mutant", "expect": ["C01.R3"],
+     "edits": [(RT, REST_LOOP, "                    let rest: Vec<String> = all_segments\n                        .by_ref()\n                        .chain(std::iter::once(segment))\n                        .collect();\n")],
+     "why": "the current segment is chained behind the remaining ones instead of in front"},
+    {"name": "wildcard-chain-foreign-seed", "kind": "mutant", "expect": ["C01.R3"],
+     "edits": [(RT, REST_LOOP, "                    let rest: Vec<String> = std::iter::once(varname.clone())\n                        .chain(all_segments.by_ref())\n                        .collect();\n")],
+     "why": "the list starts with the variable's name instead of the current segment"},
+    {"name": "wildcard-chain-extra-element", "kind": "mutant", "expect": ["C01.R3"],
+     "edits": [(RT, REST_LOOP, "                    let mut rest: Vec<String> = std::iter::once(segment)\n                        .chain(all_segments.by_ref())\n                        .collect();\n                    rest.push(String::new());\n")],
+     "why": "an element that is no request segment is appended to the collected list"},
+    {"name": "wildcard-chain-takes-two", "kind": "mutant", "expect": ["C01.R3"],
+     "edits": [(RT, REST_LOOP, "                    let rest: Vec<String> = std::iter::once(segment)\n                        .chain(all_segments.by_ref().take(2))\n                        .collect();\n")],
+     "why": "only two of the remaining segments are bound; the walk goes on with the others"},
+    {"name": "selection-and-then-falls-back", "kind": "mutant", "expect": ["C01.R2"],
+     "edits": [(RT, SELECT_CALL, "node\n            .methods\n            .get(&methodname)\n            .and_then(|handlers| find_handler_matching_version(handlers, version))\n"
+                "            .or_else(|| node.methods.values().next().and_then(|v| v.first()))\n        ")],
+     "why": "when no endpoint is registered for the method and version, some other endpoint of the node answers"},
+    {"name": "selection-and-then-other-method", "kind": "mutant", "expect": ["C01.R2"],
+     "edits": [(RT, SELECT_CALL, "node\n            .methods\n            .get(&methodname)\n            .or_else(|| node.methods.get(\"GET\"))\n"
+                "            .and_then(|handlers| find_handler_matching_version(handlers, version))\n        ")],
+     "why": "a request with a method that has no handlers is dispatched to the GET endpoint"},
+    {"name": "selection-and-then-no-version", "kind": "mutant", "expect": ["C01.R2"],
+     "edits": [(RT, SELECT_CALL, "node\n            .methods\n            .get(&methodname)\n            .and_then(|handlers| find_handler_matching_version(handlers, None))\n        ")],
+     "why": "selection written with and_then, but without the request's version"},
     # ---------------------------------------------------------------- benign variants
     {"name": "benign-extra-statement-in-walk", "kind": "benign",
      "edits": [(RT, "            let segment_string = segment.to_string();\n", "            let segment_string = segment.to_string();\n            let _depth = variables.len();\n")],
@@ -1091,4 +1165,15 @@ SELFTEST = [
                (RT, "let methodname = method.as_str().to_uppercase();\n        let existing_handlers", "let methodname = method_key(&method);\n        let existing_handlers"),
                (RT, "/// Insert a variable into the set after checking for duplicates.", "fn method_key(m: &Method) -> String {\n    m.as_str().to_uppercase()\n}\n\n/// Insert a variable into the set after checking for duplicates.")],
      "why": "behaviour-preserving: the key normalisation extracted into one helper used by both sides"},
+    {"name": "benign-rest-once-chain-collect", "kind": "benign",
+     "edits": [(RT, REST_LOOP, "                    let rest: Vec<String> = std::iter::once(segment)\n                        .chain(all_segments.by_ref())\n                        .collect();\n")],
+     "why": "behaviour-preserving: vec![segment] + push loop written as once(segment).chain(<the walk's iterator>).collect()"},
+    {"name": "benign-selection-by-and-then", "kind": "benign",
+     "edits": [(RT, SELECT_CALL, "node\n            .methods\n            .get(&methodname)\n            .and_then(|handlers| find_handler_matching_version(handlers, version))\n        ")],
+     "why": "behaviour-preserving: `find(get(k).map(as_slice).unwrap_or(&[]), v)` written as `get(k).and_then(|h| find(h, v))` (no list: nothing found, either way)"},
+    {"name": "benign-literal-arm-fails-alone", "kind": "benign",
+     "edits": [(RT, "                Some(HttpRouterEdges::Literals(edges)) => {\n                    edges.get(&segment_string)\n                }",
+                "                Some(HttpRouterEdges::Literals(edges)) => {\n                    Some(edges.get(&segment_string).ok_or_else(|| {\n                        HttpError::for_not_found(\n                            None,\n"
+                "                            String::from(\"no route found (no path in router)\"),\n                        )\n                    })?)\n                }")],
+     "why": "behaviour-preserving: the literal arm reports its own miss with `?` (same 404) instead of leaving it to the ok_or_else behind the match"},
 ]
